@@ -85,6 +85,14 @@ def run(ctx):
         # the artefact behind audit finding C07-F1: `null` IS answered None - value_from_ast never hands it over
         ctx.stat("regok-witness:stand-in-parse-literal(null)-is-None:%s" % (any_.parse_literal(parse_value("null"), {}) is None))
         # … and at a non-null position the library refuses it before any parser runs
+        from py_gql.exc import InvalidValue
+        ctx.count()
+        try:
+            got = value_from_ast(parse_value("null"), NonNullType(any_))
+            ctx.fail("property:regok-witness:null-at-non-null-stand-in:value_from_ast", "value_from_ast accepted null at `Any!` (answer %r)" % (got,),
+                     {"check": "regok-witness", "literal": "null", "type": "Any!"}, kind="property")
+        except InvalidValue:
+            ctx.stat("regok-witness:null-at-non-null-refused-by-value_from_ast")
         bad = graphql_blocking(schema, '{ k: f(a: null) }')
         ctx.count()
         if not bad.errors:
